@@ -409,6 +409,34 @@ def shm_census():
         return set()
 
 
+_SHM_CREATED = set()
+_SHM_TRACKING = False
+
+
+def track_shm():
+    """Record the names of the shared-memory segments *this process* creates (other shards and spawned runs create
+    their own; a system-wide census would blame them on us)."""
+    global _SHM_TRACKING
+    if _SHM_TRACKING:
+        return
+    from multiprocessing import shared_memory
+
+    orig = shared_memory.SharedMemory.__init__
+
+    def init(self, name=None, create=False, size=0, **kw):
+        orig(self, name=name, create=create, size=size, **kw)
+        if create:
+            _SHM_CREATED.add(self.name.lstrip("/"))
+
+    shared_memory.SharedMemory.__init__ = init
+    _SHM_TRACKING = True
+
+
+def shm_created_alive():
+    """Segments created by this process that still exist in /dev/shm."""
+    return sorted(n for n in _SHM_CREATED if os.path.exists("/dev/shm/" + n))
+
+
 def run_cases(ctx, mon, cases, run_case, time_bound=None):
     """Drive `run_case(case, ctx, mon)` over an iterable of cases.
 
